@@ -29,7 +29,8 @@ import (
 var mixNames = []string{"provider-requests", "legacy-server-requests", "relying-party-calls", "rs-te-client-calls-on-one-client",
 	"remote-key-set", "construct-providers-while-serving", "device-polls-on-storage-owned-state",
 	"remote-key-set-jwks-failing-flapping-unknown-kid-slow", "rp-verify-tokens-jwks-failing", "provider-requests-storage-faults",
-	"rp-rs-te-calls-endpoint-errors", "handler-values-overlapping-requests", "package-level-helpers"}
+	"rp-rs-te-calls-endpoint-errors", "handler-values-overlapping-requests", "package-level-helpers",
+	"provider-error-paths-config-variants"}
 
 var nMixes = len(mixNames)
 
@@ -460,6 +461,28 @@ func raceChild() {
 		})
 		if wrong > 0 {
 			fmt.Printf("WARNING: DATA RACE (c20: %d helper calls computed a wrong value or panicked)\n", wrong)
+		}
+	case 13: // every request class - the validation errors of every endpoint - with per-request states, on two providers in
+		// configuration variants (deprecated UserFormURL / UserFormPath, custom endpoints) and the legacy servers over them
+		var mu sync.Mutex
+		wrong := 0
+		for round, s := range []ansSetup{
+			{two: true, formURL: [2]bool{true, false}, customEps: [2]bool{false, true}, logoutURI: [2]bool{true, false}, caps: [2]int{7, 4}},
+			{two: true, formURL: [2]bool{true, true}, caps: [2]int{5, 7}, variant: [2]int{4, 0}}} {
+			w.cfg.sigAlg = []int{0, a384}[round]
+			s.build(w)
+			par(8, 24, func(g, it int) {
+				i := []int{11, 13, 21, 23}[(g+it/3)%4]
+				q := ansWeights[(g*5+it)%len(ansWeights)]
+				if _, _, foreign := sendAns(w, i, q, fmt.Sprintf("st-%d-%dx", round*100+g, it)); foreign {
+					mu.Lock()
+					wrong++
+					mu.Unlock()
+				}
+			})
+		}
+		if wrong > 0 {
+			fmt.Printf("WARNING: DATA RACE (c20: %d answers carried another request's state or user code)\n", wrong)
 		}
 	}
 	fmt.Println("c20-race-mix-done")
